@@ -15,7 +15,7 @@ Ops (one per line):
   `end <count> complete|truncated`.
 -/
 open KV KV.Proto KV.PCQueue
-open KV.Chain (Pool Chain Item WPC SPC MPC)
+open KV.Chain (Pool Chain Item WPC LPC MPC)
 
 def parseList (s : String) (sep : String) : List String :=
   if s == "-" then [] else (s.splitOn sep).filter (· ≠ "")
@@ -61,6 +61,31 @@ def runTrace (s0 : State) (sched : List Nat) : String := Id.run do
       | none => fuel := 0
   let status := if allDone s then "ok" else "deadlock"
   out := out.push ("END " ++ status ++ " F " ++ finalLine s)
+  return " ".intercalate out.toList
+
+/-- replay a schedule (no fallback), then name the thread the harness should probe: a thread that is not
+finished and cannot step must stay blocked when released -/
+def runProbe (s0 : State) (sched : List Nat) (probe : String) : String := Id.run do
+  let mut s := s0
+  let mut out : Array String := #["I/" ++ joinNats (enabledSet s)]
+  for t in sched do
+    match step s t with
+    | some s' => out := out.push (stepTok s s' t); s := s'
+    | none => out := out.push ("x" ++ toString t)
+  let blocked (t : Nat) : Bool :=
+    match s.threads[t]? with
+    | some th => th.pc != .done && (step s t).isNone
+    | none => false
+  let tok :=
+    if probe == "auto" then
+      match (List.range s.threads.length).find? blocked with
+      | some t => "P" ++ toString t ++ "=blocked"
+      | none => "P-1=na"
+    else
+      match probe.toNat? with
+      | some t => "P" ++ toString t ++ (if blocked t then "=blocked" else "=na")
+      | none => "P?=na"
+  out := out.push tok
   return " ".intercalate out.toList
 
 /-- shared object touched by the next step of a thread (for the independence relation):
@@ -169,12 +194,12 @@ def chainSys : Sys Chain where
     match t with
     | 0 => match c.main with
       | .fill _ => "w" | .join _ => "j" | .drain _ => "w" | .aborted => "A" | .finished => "d"
-    | i + 1 => match c.spc[i]? with
-      | some .start => "s" | some .consume => "w" | some (.produce _ _) => "w" | some .finished => "d" | none => "?"
+    | i + 1 => match (c.st i).pc with
+      | .start => "s" | .finished => "d" | _ => "w"
   done := Chain.allDone
-  final := fun c => ";".intercalate (((List.range c.spc.length).filter fun i => 0 < i && i + 1 < c.spc.length).map fun i =>
-    toString (i + 1) ++ ":" ++ joinNats (c.seen.getD i []))
-  fuel := fun c => 4 * (c.data.length + c.b + 2) * (c.spc.length + 2) + 10
+  final := fun c => ";".intercalate (((List.range (c.m + 1)).filter fun i => 0 < i && i < c.m).map fun i =>
+    toString (i + 1) ++ ":" ++ joinNats (c.seen i))
+  fuel := fun c => 4 * (c.data.length + c.b + 2) * (c.m + 3) + 10
 
 def parseInit (cap prods quotas : String) : Option State :=
   match cap.toNat? with
@@ -188,6 +213,10 @@ def handle (line : String) : IO Unit := do
   | ["pcq", cap, prods, quotas, sched] =>
     match parseInit cap prods quotas with
     | some s0 => IO.println (runTrace s0 (parseNats sched))
+    | none => IO.println "bad-op"
+  | ["pcq", cap, prods, quotas, sched, probe] =>
+    match parseInit cap prods quotas with
+    | some s0 => IO.println (runProbe s0 (parseNats sched) probe)
     | none => IO.println "bad-op"
   | ["enum", cap, prods, quotas, limit, mode] =>
     match parseInit cap prods quotas, limit.toNat? with
